@@ -811,4 +811,175 @@ theorem localMutation_sound {cx : Ctx} {arg : AcctArg} {a : Addr} {p : Nat}
           · exact hi
           · exact absurd ⟨by omega, h9⟩ hm
 
+/-! ### inner transactions -/
+
+theorem forM_ok {α : Type} (l : List α) (f : α → Except Deny Unit) :
+    l.forM f = .ok () ↔ ∀ x ∈ l, f x = .ok () := by
+  induction l with
+  | nil => simp [List.forM, pure, Except.pure]
+  | cons a as ih =>
+    simp only [List.forM, List.mem_cons, forall_eq_or_imp]
+    cases h : f a with
+    | error e => simp [bind, Except.bind]
+    | ok u =>
+      simp only [bind, Except.bind, true_and]
+      exact ih
+
+theorem requireHolding_ok (cx : Ctx) (a : Addr) (id : Nat) :
+    requireHolding cx a id = .ok () ↔ id = 0 ∨ a = .zero ∨ allowsHolding cx a id = true := by
+  unfold requireHolding
+  by_cases h : id = 0 ∨ a = .zero
+  · rw [if_pos h]; simp only [true_iff]; rcases h with h | h
+    · exact Or.inl h
+    · exact Or.inr (Or.inl h)
+  · rw [if_neg h]
+    by_cases h2 : allowsHolding cx a id = true
+    · rw [if_pos h2]; simp [h2]
+    · rw [if_neg h2]
+      constructor
+      · intro h'; cases h'
+      · rintro (h' | h' | h')
+        · exact absurd (Or.inl h') h
+        · exact absurd (Or.inr h') h
+        · exact absurd h' h2
+
+theorem requireLocals_ok (cx : Ctx) (a : Addr) (id : Nat) :
+    requireLocals cx a id = .ok () ↔ allowsLocals cx a id = true := by
+  unfold requireLocals
+  by_cases h2 : allowsLocals cx a id = true <;> simp [h2]
+
+theorem allowsApplAddr_ok (cx : Ctx) (appId : Nat) (assets apps : List Nat) (a : Addr) :
+    allowsApplAddr cx appId assets apps a = .ok () ↔
+      (∀ id ∈ assets, id = 0 ∨ a = .zero ∨ allowsHolding cx a id = true)
+      ∧ (appId ≠ 0 → allowsLocals cx a appId = true)
+      ∧ (∀ p ∈ apps, allowsLocals cx a p = true) := by
+  unfold allowsApplAddr
+  have e1 : assets.forM (fun id => requireHolding cx a id) = .ok () ↔
+      ∀ id ∈ assets, id = 0 ∨ a = .zero ∨ allowsHolding cx a id = true := by
+    rw [forM_ok]; exact forall_congr' fun x => imp_congr_right fun _ => requireHolding_ok cx a x
+  have e3 : apps.forM (fun id => requireLocals cx a id) = .ok () ↔ ∀ p ∈ apps, allowsLocals cx a p = true := by
+    rw [forM_ok]; exact forall_congr' fun x => imp_congr_right fun _ => requireLocals_ok cx a x
+  rw [← e1, ← e3]
+  cases h1 : assets.forM (fun id => requireHolding cx a id) with
+  | error e => simp [bind, Except.bind]
+  | ok u =>
+    simp only [bind, Except.bind, true_and]
+    by_cases h0 : appId ≠ 0
+    · rw [if_pos h0]
+      cases h2 : requireLocals cx a appId with
+      | error e =>
+        simp only [false_iff, reduceCtorEq]
+        intro hh
+        have := (requireLocals_ok cx a appId).2 (hh.1 h0)
+        rw [h2] at this; cases this
+      | ok u2 =>
+        have h2' := (requireLocals_ok cx a appId).1 h2
+        constructor
+        · intro h3; exact ⟨fun _ => h2', h3⟩
+        · intro hh; exact hh.2
+    · rw [if_neg h0]
+      constructor
+      · intro h3; exact ⟨fun h => absurd h h0, h3⟩
+      · intro hh; exact hh.2
+
+/-! ### boxes -/
+
+theorem boxKeys_boxSet (m : List (BoxKey × Bool)) (k k' : BoxKey) (d : Bool) :
+    k' ∈ boxKeys (boxSet m k d) ↔ k' = k ∨ k' ∈ boxKeys m := by
+  unfold boxKeys boxSet
+  simp only [List.map_cons, List.mem_cons, List.mem_map, List.mem_filter]
+  constructor
+  · rintro (h | ⟨e, ⟨he, _⟩, rfl⟩)
+    · exact Or.inl h
+    · exact Or.inr ⟨e, he, rfl⟩
+  · rintro (h | ⟨e, he, rfl⟩)
+    · exact Or.inl h
+    · by_cases hk : e.1 = k
+      · exact Or.inl hk
+      · exact Or.inr ⟨e, ⟨he, by simpa using hk⟩, rfl⟩
+
+theorem boxGet_isSome (m : List (BoxKey × Bool)) (k : BoxKey) : (boxGet m k).isSome = true ↔ k ∈ boxKeys m := by
+  induction m with
+  | nil => simp [boxGet, boxKeys]
+  | cons e rest ih =>
+    obtain ⟨k', d⟩ := e
+    unfold boxGet
+    by_cases h : k' = k
+    · simp [h, boxKeys]
+    · simp only [h, if_false, ih, boxKeys, List.map_cons, List.mem_cons]
+      constructor
+      · intro h'; exact Or.inr h'
+      · rintro (h' | h')
+        · exact absurd h'.symm h
+        · exact h'
+
+theorem boxKeys_foldl (ks : List BoxKey) (m : List (BoxKey × Bool)) (k : BoxKey) :
+    k ∈ boxKeys (ks.foldl (fun m k => boxSet m k false) m) ↔ k ∈ ks ∨ k ∈ boxKeys m := by
+  induction ks generalizing m with
+  | nil => simp
+  | cons x xs ih =>
+    simp only [List.foldl_cons, ih, boxKeys_boxSet, List.mem_cons]
+    constructor
+    · rintro (h | h | h)
+      · exact Or.inl (Or.inr h)
+      · exact Or.inl (Or.inl h)
+      · exact Or.inr h
+    · rintro ((h | h) | h)
+      · exact Or.inr (Or.inl h)
+      · exact Or.inl h
+      · exact Or.inr (Or.inr h)
+
+theorem foldl_fill_boxes (g : List Txn) (r : Res) (k : BoxKey) :
+    k ∈ boxKeys (g.foldl fill r).boxes ↔ k ∈ boxKeys r.boxes ∨ ∃ tx ∈ g, k ∈ (contrib tx).boxes := by
+  induction g generalizing r with
+  | nil => simp
+  | cons tx g ih =>
+    simp only [List.foldl_cons, ih, fill, Res.add, boxKeys_foldl, List.mem_cons, exists_eq_or_imp]
+    constructor
+    · rintro ((h | h) | h)
+      · exact Or.inr (Or.inl h)
+      · exact Or.inl h
+      · exact Or.inr (Or.inr h)
+    · rintro (h | h | h)
+      · exact Or.inl (Or.inr h)
+      · exact Or.inl (Or.inl h)
+      · exact Or.inr h
+
+theorem shared_boxes_iff (g : List Txn) (k : BoxKey) :
+    k ∈ boxKeys (computeAvailability g).boxes ↔ ∃ tx ∈ g, k ∈ (contrib tx).boxes := by
+  unfold computeAvailability
+  rw [foldl_fill_boxes]
+  simp [boxKeys]
+
+/-- the availability gate of a box access: past `nobox` / `clearbox` the box was named, or belongs to an app created in
+the group with a spare (empty) reference left, or the simulation policy granted it -/
+theorem availableAppBox_named {w : World} {cx : Ctx} {k : BoxKey} {op : BoxOp} {sz : Nat}
+    (hn : (availableAppBox w cx k op sz).2 ≠ .deny .nobox) (hc : (availableAppBox w cx k op sz).2 ≠ .deny .clearbox) :
+    cx.f.oc ≠ 3 ∧ (k ∈ boxKeys cx.res.boxes
+      ∨ (k.1 ∈ cx.res.createdApps ∧ cx.res.unnamedAccess > 0)
+      ∨ ∃ p, cx.policy = some p ∧ k ∈ p.boxes) := by
+  by_cases h3 : cx.f.oc = 3
+  · exact absurd (by simp [availableAppBox, h3]) hc
+  · refine ⟨h3, ?_⟩
+    by_cases hk : k ∈ boxKeys cx.res.boxes
+    · exact Or.inl hk
+    · have hnone : (boxGet cx.res.boxes k).isNone = true := by
+        cases hg : boxGet cx.res.boxes k with
+        | none => rfl
+        | some d => exact absurd ((boxGet_isSome _ _).1 (by simp [hg])) hk
+      by_cases hs : k.1 ∈ cx.res.createdApps ∧ cx.res.unnamedAccess > 0
+      · exact Or.inr (Or.inl hs)
+      · by_cases hp : ∃ p, cx.policy = some p ∧ k ∈ p.boxes
+        · exact Or.inr (Or.inr hp)
+        · exfalso
+          apply hn
+          have hs' : k.1 ∈ cx.res.createdApps → cx.res.unnamedAccess = 0 := fun hc1 => by
+            have : ¬ cx.res.unnamedAccess > 0 := fun h => hs ⟨hc1, h⟩
+            omega
+          cases hq : cx.policy with
+          | none => simp [availableAppBox, h3, hnone, hq]; rw [if_pos hs']
+          | some p =>
+            have hm : ¬ k ∈ p.boxes := fun hm => hp ⟨p, hq, hm⟩
+            simp [availableAppBox, h3, hnone, hq, hm]; rw [if_pos hs']
+
 end AlgoVerif.Lemmas.Resources
